@@ -26,6 +26,15 @@ use vec1::{Vec1, vec1};
 
 pub const BACKPASS_VARIABLE: &str = "_backpass";
 pub const CAPTURE_VARIABLE: &str = "_capture";
+
+/// The spelling under which an integer literal pattern is compared with another one: its
+/// value in decimal. `-0`, `0` and `0_0` are one literal, as are `1` and `0_001`.
+pub fn canonical_int_literal(value: &str) -> String {
+    value
+        .parse::<num_bigint::BigInt>()
+        .map(|n| n.to_string())
+        .unwrap_or_else(|_| value.to_string())
+}
 pub const PIPE_VARIABLE: &str = "_pipe";
 
 pub const ENV_MODULE: &str = "env";
